@@ -308,6 +308,7 @@ def process_fn(repo, annot_rel, opts, mode, canary, base_variants):
         if _m:
             rec.name = _m.group(1)
     text = rtok.render(lowered)
+    rec.main_lines = len(text.rstrip('\n').split('\n'))
     if ctoks is not None:
         # vacuity canary: a renamed copy with `ensures false`, next to the unmodified function (callers keep
         # seeing the real contract)
@@ -377,6 +378,12 @@ def build_unit(repo, unit_rel, variants=(), canary=False, word=64):
             text, rec = process_fn(repo, rest[0], opts, cmd, canary and cmd == 'FN', variants)
             recs.append(rec)
             out.append('// ---- %s %s  [%s]' % (cmd, rec.locator, rec.status))
+            # 1-based line span of the function (and of its canary copy) in the generated file
+            start = sum(x.count('\n') + 1 for x in out) + 1
+            rec.line_lo = start
+            rec.line_hi = start + getattr(rec, 'main_lines', len(text.rstrip('\n').split('\n'))) - 1
+            rec.canary_lo = rec.line_hi + 1
+            rec.canary_hi = start + len(text.rstrip('\n').split('\n')) - 1
             out.append(text)
         else:
             raise UnitProblem('unknown directive ' + cmd)
